@@ -21,7 +21,7 @@
 //! child must not exit, every connection must be answered, closed, or be waiting for the rest of a
 //! truncated packet within 5 s, no session task may panic (child stderr), peak RSS must stay below
 //! `base + 64·bytes_sent + 64 MiB`; in-process: no panic, and the bytes requested by one
-//! `parse_resp` call must stay below `64·len + 4096`.
+//! `parse_resp` call must stay below `4128·(len + 1)` (= `size_of::<RespIndex>() · (MAX_NESTING + 1)` per byte).
 use bytes::BytesMut;
 use serde_json::json;
 use std::alloc::{GlobalAlloc, Layout, System};
@@ -101,6 +101,9 @@ fn measured<T>(f: impl FnOnce() -> T) -> (T, u64) {
 // small helpers
 // ------------------------------------------------------------------------------------------
 
+/// in-process allocation oracle: `size_of::<RespIndex>() · (MAX_NESTING + 1)` bytes per input byte, the
+/// constant of theorem `C16_alloc` for the tree with f4.diff + f16b.diff (MAX_NESTING = 128)
+const ALLOC_PER_BYTE: u64 = 32 * 129;
 const SPIN: u64 = 100_000_000_000;
 const STACK_LEVELS: u64 = 11_000;
 const RLIMIT_BYTES: u64 = 2 << 30;
@@ -1074,7 +1077,7 @@ fn run_inproc_op(toks: &[&str], st: &mut Streams, op: &str) {
                 let c = st.cases;
                 if line == "PANIC" {
                     st.stats.oracle_failure(c, "parse_resp panicked", if pred_f4(&b) { "F4" } else { "" }, vec![op.to_string()]);
-                } else if alloc > 64 * b.len() as u64 + 4096 {
+                } else if alloc > ALLOC_PER_BYTE * (b.len() as u64 + 1) {
                     let known = declared_array_lens(&b).iter().any(|n| *n > b.len() as u128);
                     st.stats.oracle_failure(c, &format!("parse_resp requested {} bytes for {} input bytes", alloc, b.len()),
                         if known { "F4" } else { "" }, vec![op.to_string()]);
@@ -1287,7 +1290,7 @@ fn run_child_conn(cx: &mut ChildCtx, st: &mut Streams, input: &[u8], hint: Optio
     }
     if kind != "aborted" {
         for pl in &panics {
-            let fid = if pl.contains("capacity overflow") && pred_f4(input) { "F4" }
+            let fid = if (pl.contains("capacity overflow") || pl.contains("raw_vec")) && pred_f4(input) { "F4" }
                 else if pl.contains("slowlog.rs") && pred_f16c(input) { "F16c" } else { "" };
             st.stats.oracle_failure(case, &format!("a session task panicked: {} [{}]", pl, class), fid, replay.clone());
         }
